@@ -46,6 +46,14 @@ for line in sys.stdin:
         w = len(f[1]) // 2
         exp = (le(f[2]) - le(f[1]) + 1) % (1 << (8 * w))
         ok = (f[3] == "full") if exp == 0 else (f[3] != "full" and le(f[3]) == exp)
+    elif op == "divfloor":
+        ok = le(f[3]) == le(f[1]) // le(f[2])
+    elif op == "fibrestart":
+        w, k, r = int(f[1]), le(f[2]), le(f[3])
+        exp = -((-(k << (8 * w))) // r)
+        ok = (f[4] == "none") if exp >= (1 << (8 * w)) else (f[4] != "none" and le(f[4]) == exp)
+    elif op == "midpoint":
+        ok = le(f[3]) == (le(f[1]) + le(f[2])) // 2
     else:
         ok = False
     if not ok:
